@@ -29,6 +29,26 @@ impl Read for Grow {
     }
 }
 
+/// Source that answers its `fail_at`-th byte request with `WouldBlock` once.
+struct Blocky<'a> {
+    data: &'a [u8],
+    pos: usize,
+    fail_at: usize,
+    fired: bool,
+}
+impl Read for Blocky<'_> {
+    fn read(&mut self, buf: &mut [u8]) -> std::io::Result<usize> {
+        if !self.fired && self.pos >= self.fail_at {
+            self.fired = true;
+            return Err(std::io::Error::new(std::io::ErrorKind::WouldBlock, "injected"));
+        }
+        let n = buf.len().min(self.data.len() - self.pos).min(self.fail_at.saturating_sub(self.pos).max(1));
+        buf[..n].copy_from_slice(&self.data[self.pos..self.pos + n]);
+        self.pos += n;
+        Ok(n)
+    }
+}
+
 fn code_str(c: (u32, u32)) -> String {
     (0..c.1).rev().map(|i| if (c.0 >> i) & 1 == 1 { '1' } else { '0' }).collect()
 }
@@ -421,6 +441,39 @@ fn split_delivery(rep: &Report, tier: Tier) -> u64 {
                 let data = Rc::new(RefCell::new(full[..k].to_vec()));
                 let mut rd = H263Reader::from_source(Grow(data.clone(), 0));
                 let replay = json!({"kind": "split", "options": opts, "history": hist.iter().map(|p| hex(&encode_bytes(p))).collect::<Vec<_>>(), "picture": hex(&full), "split_at": k});
+                // the same split as a transient I/O error instead of an end of data: the source
+                // reports WouldBlock once when byte k is requested; the call must fail without
+                // side effects and the next call on the same reader must decode the picture
+                {
+                    let mut d = Dec::new(*opts);
+                    for p in hist {
+                        let _ = d.step(p, "C05", &mut st);
+                    }
+                    let key0 = state_key(&d.st);
+                    let mut src = full.clone();
+                    src.extend_from_slice(&[0xDE, 0xAD, 0xBE, 0xEF]);
+                    let mut rd = H263Reader::from_source(Blocky { data: &src, pos: 0, fail_at: k, fired: false });
+                    let o1 = decode_with(&mut d.st, &mut rd);
+                    let replay = json!({"kind": "split", "options": opts, "history": hist.iter().map(|p| hex(&encode_bytes(p))).collect::<Vec<_>>(), "picture": hex(&full), "split_at": k, "transient_error": "WouldBlock"});
+                    match o1 {
+                        Outcome::Panic(p) => rep.violation(&panic_sig(&p), format!("{}: WouldBlock at byte {k}: panic {p}", describe(pic)), replay),
+                        Outcome::Ok => {
+                            if state_key(&d.st) != want_key || last_snap(&d.st) != want_snap {
+                                rep.violation("C05/transient-error-swallowed", format!("{}: the source reported WouldBlock at byte {k} of {}, the call returned Ok with a picture that differs from the one decoded without the error", describe(pic), full.len()), replay);
+                            }
+                        }
+                        Outcome::Err(_) => {
+                            if state_key(&d.st) != key0 {
+                                rep.violation("C05/transient-error-changed-state", format!("{}: WouldBlock at byte {k}: error, but the decoder state changed", describe(pic)), replay);
+                            } else {
+                                let o2 = decode_with(&mut d.st, &mut rd);
+                                if !o2.is_ok() || state_key(&d.st) != want_key || last_snap(&d.st) != want_snap {
+                                    rep.violation("C05/retry-after-transient-error", format!("{}: the source reported WouldBlock at byte {k} of {}; the call failed, and the next call on the same reader gives {} and {} the picture decoded in one piece", describe(pic), full.len(), o2.short(), if last_snap(&d.st) == want_snap { "matches" } else { "does NOT match" }), replay);
+                                }
+                            }
+                        }
+                    }
+                }
                 match decode_with(&mut d.st, &mut rd) {
                     Outcome::Panic(p) => rep.violation(&panic_sig(&p), format!("{}: first {k} bytes: panic {p}", describe(pic)), replay),
                     Outcome::Err(_) => {
@@ -627,7 +680,7 @@ pub fn run(tier: Tier) -> Report {
     split_delivery(&rep, tier);
     scale_delivery(&rep, tier);
     rep.set_rule(
-        "for every state of the reachable decoder graph (closed alphabets of C04, both modes) x every failure site (no start code, header cut at every byte, reserved size/format, unsupported types, invalid MCBPC/CBPY/MVD/INTRADC/TCOEF/escape after 0 or 1 good macroblocks in I and P pictures, prediction without or with a mismatching reference): if the call returns Err then the whole decoder state (hooked key incl. carried-over options), the most recent picture and the bits re-read from the same reader are unchanged, a second failure changes nothing, and every continuation equals a twin that never saw the input; every byte split of every base picture delivered in two parts to one reader; pictures of 2^k bytes (k = 12..18, thorough ..21) cut or corrupted near the end, in the middle and at every power-of-two offset: state unchanged, the reader re-delivers every byte, the retry after the rest arrives equals the one-piece decode; non-trivial = (non-initial state, site) pairs",
+        "for every state of the reachable decoder graph (closed alphabets of C04, both modes) x every failure site (no start code, header cut at every byte, reserved size/format, unsupported types, invalid MCBPC/CBPY/MVD/INTRADC/TCOEF/escape after 0 or 1 good macroblocks in I and P pictures, prediction without or with a mismatching reference): if the call returns Err then the whole decoder state (hooked key incl. carried-over options), the most recent picture and the bits re-read from the same reader are unchanged, a second failure changes nothing, and every continuation equals a twin that never saw the input; every byte split of every base picture delivered in two parts to one reader, and with a transient WouldBlock from the source at every byte instead; pictures of 2^k bytes (k = 12..18, thorough ..21) cut or corrupted near the end, in the middle and at every power-of-two offset: state unchanged, the reader re-delivers every byte, the retry after the rest arrives equals the one-piece decode; non-trivial = (non-initial state, site) pairs",
     );
     rep.sample(json!({"state": ["I(tr=0,0)", "Da(tr=255,1)"], "failing_input": "INTRADC 0 in macroblock 1 of an I picture (deblocking flag set)", "continuation": "Pb(tr=0,1)"}));
     rep.sample(json!({"split": "32x16 P picture after [I, D], bytes 0..k delivered first for every k"}));
